@@ -511,9 +511,10 @@ Proof. intros R. split; [apply (rep_wf _ _ _ R)|]. rewrite <- (rep_used _ _ _ R)
 
 Lemma init_value_spec b h es k :
   Rep b h es -> d_mem keq es k = false -> 8 + total (es ++ [e0 k]) < 2147483648 ->
-  exists h' tr b',
+  exists h' tr b' (t : nat),
     init_value h k = Ok (h', tr) /\ apply_effects (Some b) tr = Ok (Some b') /\ Rep b' h' (es ++ [e0 k]) /\
-    (forall n, exists bn, apply_effects (Some b) (firstn n tr) = Ok (Some bn) /\ (FR bn es \/ FR bn (es ++ [e0 k]))
+    (forall n, exists bn, apply_effects (Some b) (firstn n tr) = Ok (Some bn) /\
+                          (((n < t)%nat /\ FR bn es) \/ ((t <= n)%nat /\ FR bn (es ++ [e0 k])))
                           /\ exists i : N, len bn = isz * 2 ^ i).
 Proof.
   intros R Hk Hb. pose proof (len_FR _ _ (rep_file _ _ _ R) (rep_wf _ _ _ R)) as Hlb.
@@ -563,7 +564,7 @@ Proof.
   assert (Hall : apply_effects (Some b)
             (truncs cap j ++ [WriteSlice u (enc (e0 k)); WriteSlice 0 (le32 (u + esize k))]) = Ok (Some b3)).
   { rewrite apply_effects_app, T. cbn [bind apply_effects]. rewrite W1. cbn [bind]. rewrite W2. reflexivity. }
-  eexists _, _, b3. split; [reflexivity|]. split; [exact Hall|]. split.
+  eexists _, _, b3, (S (S j)). split; [reflexivity|]. split; [exact Hall|]. split.
   - constructor; cbn [capacity used positions].
     + exact F3.
     + rewrite (len_apply_write _ _ _ _ W2), (len_apply_write _ _ _ _ W1). apply HlenZ.
@@ -577,13 +578,13 @@ Proof.
   - intros n. rewrite firstn_app, length_truncs, firstn_truncs.
     destruct (Nat.le_gt_cases n j) as [Hn|Hn].
     + replace (n - j)%nat with O by lia. cbn [firstn]. rewrite app_nil_r, T. eexists. split; [reflexivity|].
-      split; [left; apply FRT|]. rewrite HlenZ. apply HlenI.
+      split; [left; split; [lia|apply FRT]|]. rewrite HlenZ. apply HlenI.
     + rewrite Nat.min_r by lia. destruct (n - j)%nat as [|[|m]] eqn:E; [lia| |].
       * cbn [firstn]. rewrite apply_effects_app, T. cbn [bind apply_effects]. rewrite W1. cbn [bind].
-        eexists. split; [reflexivity|]. split; [left; exact F2|].
+        eexists. split; [reflexivity|]. split; [left; split; [lia|exact F2]|].
         rewrite (len_apply_write _ _ _ _ W1), HlenZ. apply HlenI.
       * cbn [firstn]. replace (firstn m (@nil effect)) with (@nil effect) by (symmetry; apply firstn_nil).
-        rewrite Hall. eexists. split; [reflexivity|]. split; [right; exact F3|].
+        rewrite Hall. eexists. split; [reflexivity|]. split; [right; split; [lia|exact F3]|].
         rewrite (len_apply_write _ _ _ _ W2), (len_apply_write _ _ _ _ W1), HlenZ. apply HlenI.
 Qed.
 
@@ -602,21 +603,22 @@ Definition ens (es : list entry) (k : bytes) : list entry := if d_mem keq es k t
 
 Lemma ensure_spec b h es k :
   Rep b h es -> 8 + total (ens es k) < 2147483648 ->
-  exists h' tr b',
+  exists h' tr b' (t : nat),
     ensure h k = Ok (h', tr) /\ apply_effects (Some b) tr = Ok (Some b') /\ Rep b' h' (ens es k) /\
-    (forall n, exists bn, apply_effects (Some b) (firstn n tr) = Ok (Some bn) /\ (Cut bn es \/ Cut bn (ens es k))).
+    (forall n, exists bn, apply_effects (Some b) (firstn n tr) = Ok (Some bn) /\
+                          (((n < t)%nat /\ Cut bn es) \/ ((t <= n)%nat /\ Cut bn (ens es k)))).
 Proof.
   intros R Hb. unfold ensure, ens in *. rewrite (rep_pos _ _ _ R), d_mem_offsets_eq.
   destruct (d_mem keq es k) eqn:E.
-  - exists h, [], b. split; [reflexivity|]. split; [reflexivity|]. split; [exact R|].
-    intros n. exists b. rewrite firstn_nil. split; [reflexivity|]. left. exists h. exact R.
-  - destruct (init_value_spec b h es k R E Hb) as [h' [tr [b' [H1 [H2 [H3 H4]]]]]].
-    exists h', tr, b'. split; [exact H1|]. split; [exact H2|]. split; [exact H3|].
-    intros n. destruct (H4 n) as [bn [Ha [[HF|HF] Hl]]]; exists bn; (split; [exact Ha|]).
-    + left. eexists. apply Rep_of_FR; try assumption.
+  - exists h, [], b, O. split; [reflexivity|]. split; [reflexivity|]. split; [exact R|].
+    intros n. exists b. rewrite firstn_nil. split; [reflexivity|]. right. split; [lia|]. exists h. exact R.
+  - destruct (init_value_spec b h es k R E Hb) as [h' [tr [b' [t [H1 [H2 [H3 H4]]]]]]].
+    exists h', tr, b', t. split; [exact H1|]. split; [exact H2|]. split; [exact H3|].
+    intros n. destruct (H4 n) as [bn [Ha [[[Hlt HF]|[Hlt HF]] Hl]]]; exists bn; (split; [exact Ha|]).
+    + left. split; [exact Hlt|]. eexists. apply Rep_of_FR; try assumption.
       * apply (Rep_good _ _ _ R).
       * apply (rep_nodup _ _ _ R).
-    + right. eexists. apply Rep_of_FR; try assumption.
+    + right. split; [exact Hlt|]. eexists. apply Rep_of_FR; try assumption.
       * apply (Rep_good _ _ _ H3).
       * apply (rep_nodup _ _ _ H3).
 Qed.
@@ -642,14 +644,15 @@ Qed.
 
 Lemma write_value_spec b h es k v ts :
   Rep b h es -> wf_value (v, ts) -> 8 + total (d_set keq es k (v, ts)) < 2147483648 ->
-  exists h' tr b',
+  exists h' tr b' (t1 t2 : nat),
     write_value h k v ts = Ok (h', tr) /\ apply_effects (Some b) tr = Ok (Some b') /\
-    Rep b' h' (d_set keq es k (v, ts)) /\
+    Rep b' h' (d_set keq es k (v, ts)) /\ (t1 <= t2)%nat /\
     (forall n, exists bn, apply_effects (Some b) (firstn n tr) = Ok (Some bn) /\
-       (Cut bn es \/ Cut bn (ens es k) \/ Cut bn (d_set keq es k (v, ts)))).
+       (((n < t1)%nat /\ Cut bn es) \/ ((t1 <= n < t2)%nat /\ Cut bn (ens es k)) \/
+        ((t2 <= n)%nat /\ Cut bn (d_set keq es k (v, ts))))).
 Proof.
   intros R Hx Hb. rewrite <- (total_ens_set es k (v, ts)) in Hb.
-  destruct (ensure_spec b h es k R Hb) as [h1 [tr1 [b1 [H1 [H2 [R1 H4]]]]]].
+  destruct (ensure_spec b h es k R Hb) as [h1 [tr1 [b1 [t [H1 [H2 [R1 H4]]]]]]].
   unfold write_value. rewrite H1. cbn [bind fst snd].
   pose proof (ens_mem es k) as Hm. rewrite <- (d_mem_offsets_eq 8) in Hm. unfold d_mem in Hm.
   rewrite (rep_pos _ _ _ R1). unfold d_get.
@@ -672,14 +675,17 @@ Proof.
     - rewrite d_set_offsets by apply ens_mem. apply (rep_pos _ _ _ R1).
     - rewrite d_set_keys by apply ens_mem. apply (rep_nodup _ _ _ R1).
     - apply d_set_wf; [apply (rep_wf _ _ _ R1)|exact Hx]. }
-  exists h1, (tr1 ++ [WriteSlice pos (v ++ ts)]), b'. split; [reflexivity|]. split; [exact Hall|]. split; [exact R'|].
+  exists h1, (tr1 ++ [WriteSlice pos (v ++ ts)]), b', (Nat.min t (S (length tr1))), (S (length tr1)).
+  split; [reflexivity|]. split; [exact Hall|]. split; [exact R'|]. split; [lia|].
   intros n. rewrite firstn_app.
   destruct (Nat.le_gt_cases n (length tr1)) as [Hn|Hn].
   - replace (n - length tr1)%nat with O by lia. cbn [firstn]. rewrite app_nil_r.
-    destruct (H4 n) as [bn [Ha Hc]]. exists bn. split; [exact Ha|]. tauto.
+    destruct (H4 n) as [bn [Ha [[Hlt Hc]|[Hlt Hc]]]]; exists bn; (split; [exact Ha|]).
+    + left. split; [lia|exact Hc].
+    + right. left. split; [lia|exact Hc].
   - rewrite firstn_all2 by lia. destruct (n - length tr1)%nat as [|m] eqn:E; [lia|].
     cbn [firstn]. replace (firstn m (@nil effect)) with (@nil effect) by (symmetry; apply firstn_nil).
-    exists b'. split; [exact Hall|]. right. right. exists h1. exact R'.
+    exists b'. split; [exact Hall|]. right. right. split; [lia|]. exists h1. exact R'.
 Qed.
 
 (* ---------- open / reopen ---------- *)
@@ -810,6 +816,45 @@ Definition mid (es : list entry) (o : op) (x : list entry) : Prop :=
   x = es \/ x = spec_step es o \/
   (exists k, keyof o = Some k /\ d_mem keq es k = false /\ x = es ++ [e0 k]).
 
+(* one operation with its cut points in order: before the entry is published (n < t1) the file represents es, from
+   the header write on (t1 <= n < t2) the new key is there at zero, from the value write on (t2 <= n) the operation is
+   complete.  The thresholds make the cuts of one operation MONOTONE, which is what a reader whose reads are served
+   from two different cuts needs (cuts2 below). *)
+Lemma step_stages b h es o :
+  Rep b h es -> wf_op o -> 8 + total (spec_step es o) < 2147483648 ->
+  exists h' tr b' (t1 t2 : nat),
+    step isz (Some b, h) o = Ok (Some b', h', tr) /\ apply_effects (Some b) tr = Ok (Some b') /\
+    Rep b' h' (spec_step es o) /\ (t1 <= t2)%nat /\
+    (forall n, exists bn x, apply_effects (Some b) (firstn n tr) = Ok (Some bn) /\ Cut bn x /\
+       (((n < t1)%nat /\ x = es) \/
+        ((t1 <= n < t2)%nat /\ exists k, keyof o = Some k /\ x = ens es k) \/
+        ((t2 <= n)%nat /\ x = spec_step es o))).
+Proof.
+  intros R Hwf Hb. unfold step. cbn [fst snd].
+  destruct o as [k v ts|k|]; cbn [op_effects].
+  - destruct (write_value_spec b h es k v ts R Hwf Hb) as [h' [tr [b' [t1 [t2 [H1 [H2 [H3 [Ht H4]]]]]]]]].
+    exists h', tr, b', t1, t2. rewrite H1. cbn [bind fst snd]. rewrite H2. cbn [bind].
+    split; [reflexivity|]. split; [reflexivity|]. split; [exact H3|]. split; [exact Ht|].
+    intros n. destruct (H4 n) as [bn [Ha [[Hlt Hc]|[[Hlt Hc]|[Hlt Hc]]]]].
+    + exists bn, es. split; [exact Ha|]. split; [exact Hc|]. left. split; [exact Hlt|reflexivity].
+    + exists bn, (ens es k). split; [exact Ha|]. split; [exact Hc|]. right. left. split; [exact Hlt|].
+      exists k. split; reflexivity.
+    + exists bn, (d_set keq es k (v, ts)). split; [exact Ha|]. split; [exact Hc|]. right. right.
+      split; [exact Hlt|reflexivity].
+  - rewrite spec_step_ReadV in *.
+    destruct (ensure_spec b h es k R Hb) as [h' [tr [b' [t [H1 [H2 [H3 H4]]]]]]].
+    exists h', tr, b', t, t. rewrite H1. cbn [bind fst snd]. rewrite H2. cbn [bind].
+    split; [reflexivity|]. split; [reflexivity|]. split; [exact H3|]. split; [lia|].
+    intros n. destruct (H4 n) as [bn [Ha [[Hlt Hc]|[Hlt Hc]]]].
+    + exists bn, es. split; [exact Ha|]. split; [exact Hc|]. left. split; [exact Hlt|reflexivity].
+    + exists bn, (ens es k). split; [exact Ha|]. split; [exact Hc|]. right. right. split; [exact Hlt|reflexivity].
+  - unfold close_effects. cbn [apply_effects bind app].
+    rewrite (reopen_spec b h es R). cbn [bind fst snd apply_effects spec_step].
+    exists h, [], b, O, O. split; [reflexivity|]. split; [reflexivity|]. split; [exact R|]. split; [lia|].
+    intros n. exists b, es. rewrite firstn_nil. split; [reflexivity|]. split; [exists h; exact R|].
+    right. right. split; [lia|reflexivity].
+Qed.
+
 Lemma step_spec b h es o :
   Rep b h es -> wf_op o -> 8 + total (spec_step es o) < 2147483648 ->
   exists h' tr b',
@@ -817,29 +862,16 @@ Lemma step_spec b h es o :
     Rep b' h' (spec_step es o) /\
     (forall n, exists bn x, apply_effects (Some b) (firstn n tr) = Ok (Some bn) /\ Cut bn x /\ mid es o x).
 Proof.
-  intros R Hwf Hb. unfold step. cbn [fst snd].
-  destruct o as [k v ts|k|]; cbn [op_effects].
-  - destruct (write_value_spec b h es k v ts R Hwf Hb) as [h' [tr [b' [H1 [H2 [H3 H4]]]]]].
-    exists h', tr, b'. rewrite H1. cbn [bind fst snd]. rewrite H2. cbn [bind].
-    split; [reflexivity|]. split; [reflexivity|]. split; [exact H3|].
-    intros n. destruct (H4 n) as [bn [Ha [Hc|[Hc|Hc]]]].
-    + exists bn, es. split; [exact Ha|]. split; [exact Hc|]. left. reflexivity.
-    + unfold ens in Hc. destruct (d_mem keq es k) eqn:E.
-      * exists bn, es. split; [exact Ha|]. split; [exact Hc|]. left. reflexivity.
-      * exists bn, (es ++ [e0 k]). split; [exact Ha|]. split; [exact Hc|]. right. right.
-        exists k. split; [reflexivity|]. split; [exact E|reflexivity].
-    + exists bn, (d_set keq es k (v, ts)). split; [exact Ha|]. split; [exact Hc|]. right. left. reflexivity.
-  - rewrite spec_step_ReadV in *.
-    destruct (ensure_spec b h es k R Hb) as [h' [tr [b' [H1 [H2 [H3 H4]]]]]].
-    exists h', tr, b'. rewrite H1. cbn [bind fst snd]. rewrite H2. cbn [bind].
-    split; [reflexivity|]. split; [reflexivity|]. split; [exact H3|].
-    intros n. destruct (H4 n) as [bn [Ha [Hc|Hc]]].
-    + exists bn, es. split; [exact Ha|]. split; [exact Hc|]. left. reflexivity.
-    + exists bn, (ens es k). split; [exact Ha|]. split; [exact Hc|]. right. left. symmetry. apply spec_step_ReadV.
-  - unfold close_effects. cbn [apply_effects bind app].
-    rewrite (reopen_spec b h es R). cbn [bind fst snd apply_effects spec_step].
-    exists h, [], b. split; [reflexivity|]. split; [reflexivity|]. split; [exact R|].
-    intros n. exists b, es. rewrite firstn_nil. split; [reflexivity|]. split; [exists h; exact R|]. left. reflexivity.
+  intros R Hwf Hb.
+  destruct (step_stages b h es o R Hwf Hb) as [h' [tr [b' [t1 [t2 [H1 [H2 [H3 [_ H4]]]]]]]]].
+  exists h', tr, b'. split; [exact H1|]. split; [exact H2|]. split; [exact H3|].
+  intros n. destruct (H4 n) as [bn [x [Ha [Hc [[_ Hx]|[[_ [k [Hk Hx]]]|[_ Hx]]]]]]]; exists bn, x;
+    (split; [exact Ha|]); (split; [exact Hc|]).
+  - left. exact Hx.
+  - unfold ens in Hx. destruct (d_mem keq es k) eqn:E.
+    + left. exact Hx.
+    + right. right. exists k. split; [exact Hk|]. split; [exact E|exact Hx].
+  - right. left. exact Hx.
 Qed.
 
 Definition inflight_ok (es : list entry) (done : list op) (next : option op) (infl : list entry) : Prop :=
